@@ -43,7 +43,7 @@ class C10Machine(Machine):
         "transitive_curie_remap_applied", "uri_remap_applied", "rewire_applied",
         "chain_merged_later_into_earlier", "discover_with_known_uris", "lineage_depth_ge_3",
         "sub_nonempty", "mutation_right_after_derivation", "chain_same_converter_twice",
-        "curie_remap_applied", "large_root", "followup_add_with_pattern", "same_record_followed_through_lineage",
+        "curie_remap_applied", "large_root", "followup_add_with_pattern", "same_record_followed_through_lineage", "empty_mapping", "empty_prefix_subset", "root_with_more_than_256_records",
     ]
 
     @classmethod
@@ -69,7 +69,12 @@ class C10Machine(Machine):
         }
         large = rng.random() < (0.03 if tier == "quick" else 0.06)
         cfg["large"] = large
-        if large:
+        cfg["huge"] = large and rng.random() < 0.08
+        if cfg["huge"]:
+            cfg["curie_pool"] = cfg["curie_pool"] + tokens.synthetic_curie_prefixes(900)
+            cfg["uri_pool"] = cfg["uri_pool"] + tokens.synthetic_uri_prefixes(900)
+            cfg["max_ops"] = min(cfg["max_ops"], 8)
+        elif large:
             cfg["curie_pool"] = cfg["curie_pool"] + tokens.synthetic_curie_prefixes(30)
             cfg["uri_pool"] = cfg["uri_pool"] + tokens.synthetic_uri_prefixes(30)
         return cfg
@@ -81,9 +86,11 @@ class C10Machine(Machine):
         self.curies = load_curies()
         self.entries = {}     # explicit id -> Entry (ids are recorded in the ops, so removing an op shifts nothing)
         self.next_id = 0
-        self.strings, self.pairs = observe.probe_sets(
-            config["curie_pool"], config["uri_pool"], config["id_pool"], config["delimiters"], max_ids=2, compact=True
-        )
+        cp, up = config["curie_pool"], config["uri_pool"]
+        if config.get("huge"):
+            cp = cp[:len(cp) - 900] + cp[len(cp) - 900::100]
+            up = up[:len(up) - 900] + up[len(up) - 900::100]
+        self.strings, self.pairs = observe.probe_sets(cp, up, config["id_pool"], config["delimiters"], max_ids=2, compact=True)
         self.last_was_derivation = None
         self.last_mutation = None
         self.nontrivial_hit = False
@@ -157,11 +164,13 @@ class C10Machine(Machine):
     def _gen_new(self, rng):
         cfg = self.config
         n = rng.randint(1, 4) if not cfg.get("large") else rng.choice([8, 15, 16, 17, 24, 31, 32, 33])
+        if cfg.get("huge") and not self.entries:
+            n = rng.choice([257, 258, 300])
         recs = gen_valid_records(rng, cfg["curie_pool"], cfg["uri_pool"], n)
         return {"op": "new", "out": self._fresh_id(), "records": recs, "delimiter": rng.choice(cfg["delimiters"])}
 
     def _gen_chain(self, rng):
-        k = rng.choice([1, 2, 2, 3])
+        k = rng.choice([1, 2, 2, 3, 4, 5])
         return {"op": "chain", "out": self._fresh_id(), "hs": [self._pick(rng) for _ in range(k)],
                 "case_sensitive": rng.random() < 0.7}
 
@@ -196,6 +205,8 @@ class C10Machine(Machine):
             else:
                 val = "new" + str(rng.randint(1, 3))
             pairs.append([key, val])
+        if rng.random() < 0.08:
+            pairs = []      # the empty remapping: "nothing to do" must still give a new, independent converter
         if pairs and rng.random() < 0.25:
             # transitive chain a->b, b->c over two known canonical prefixes
             canon = [r["prefix"] for r in recs]
@@ -224,6 +235,8 @@ class C10Machine(Machine):
             else:
                 val = "n:" + str(rng.randint(1, 3)) + "/"
             pairs.append([key, val])
+        if rng.random() < 0.08:
+            pairs = []
         return {"op": "remap_uri", "out": self._fresh_id(), "h": h, "mapping": pairs}
 
     def _gen_rewire(self, rng):
@@ -247,6 +260,8 @@ class C10Machine(Machine):
             else:
                 val = "n:" + str(rng.randint(1, 3)) + "/"
             pairs.append([key, val])
+        if rng.random() < 0.08:
+            pairs = []
         return {"op": "rewire", "out": self._fresh_id(), "h": h, "mapping": pairs}
 
     def _gen_discover(self, rng):
@@ -256,8 +271,11 @@ class C10Machine(Machine):
         for _ in range(rng.randint(1, 6)):
             base = rng.choice(cfg["uri_pool"]) if rng.random() < 0.7 else "http://n.org/" + rng.choice(["a", "b"]) + rng.choice(["/", "#", "_"])
             uris.append(base + rng.choice(["1", "x2", "abc", "", "a b"]))
+        if rng.random() < 0.1:
+            uris = []
         return {"op": "discover", "out": self._fresh_id(), "h": h, "uris": uris, "cutoff": rng.choice([None, None, 1, 2]),
-                "metaprefix": rng.choice(["ns", "m"])}
+                "metaprefix": rng.choice(["ns", "m"]),
+                "delimiters": rng.choice([None, None, ["/"], ["#", "_"], [":", "/"]])}
 
     def _gen_mutate(self, rng, h):
         cfg = self.config
@@ -319,7 +337,7 @@ class C10Machine(Machine):
                 c = copy.deepcopy(op)
                 del c["hs"][i]
                 yield c
-        if op["op"] in ("remap_curie", "remap_uri", "rewire") and len(op["mapping"]) > 1:
+        if op["op"] in ("remap_curie", "remap_uri", "rewire") and len(op["mapping"]) >= 1:
             for i in range(len(op["mapping"])):
                 c = copy.deepcopy(op)
                 del c["mapping"][i]
@@ -400,6 +418,8 @@ class C10Machine(Machine):
             self.event("new")
             if len(op["records"]) >= 8:
                 self.probe("large_root")
+            if len(op["records"]) > 256:
+                self.probe("root_with_more_than_256_records")
             self.last_was_derivation = None
             self._note("new")
             return {"new": h}
@@ -433,8 +453,9 @@ class C10Machine(Machine):
             elif kind == "rewire":
                 result = reconciliation.rewire(inputs[0], {k: v for k, v in op["mapping"]})
             elif kind == "discover":
+                dkw = {"delimiters": op["delimiters"]} if op.get("delimiters") else {}
                 result = discovery.discover(list(op["uris"]), cutoff=op.get("cutoff"),
-                                            metaprefix=op.get("metaprefix", "ns"), converter=inputs[0])
+                                            metaprefix=op.get("metaprefix", "ns"), converter=inputs[0], **dkw)
             else:
                 raise ValueError(kind)
         except Exception as e:  # noqa: BLE001 - which error is C09/C11/C12's business
@@ -447,6 +468,10 @@ class C10Machine(Machine):
             self.probe("derive_from_derived")
         if kind == "chain" and len(set(hs)) < len(hs):
             self.probe("chain_same_converter_twice")
+        if kind in ("remap_curie", "remap_uri", "rewire") and not op["mapping"]:
+            self.probe("empty_mapping")
+        if kind == "sub" and not op["prefixes"]:
+            self.probe("empty_prefix_subset")
 
         # stated direction 1: every input is observably unchanged, returned or raised
         changed_kind = "input_changed" if err is None else "input_changed_on_raise"
